@@ -2,8 +2,10 @@ package checks
 
 import (
 	"fmt"
+	textwire "github.com/textwire/textwire/v2"
 	"math"
 	"math/rand"
+	"os"
 	"reflect"
 	"strings"
 
@@ -110,6 +112,34 @@ func hostileData() map[string]any {
 		"odd":  c09Odd{Name: "visitor", édad: 41, Ünit: "u"},
 		"odds": []*c09Odd{{Name: "a", я: []int{1}}, nil},
 	}
+}
+
+// trees whose files play unusual parts (none refers to itself, so every render ends)
+var oddTrees = []map[string]string{
+	{"page.tw": `a@component("~x")b`, "components/x.tw": `@use("~l")@insert("r", 1)X`, "layouts/l.tw": `<@reserve("r")>`},
+	{"page.tw": `a@component("~x")b`, "components/x.tw": "line1\n@use(\"~l\")X", "layouts/l.tw": `<@reserve("r")>`},
+	{"page.tw": `a@component("~x")@slot s@end@end b`, "components/x.tw": `@use("~l")X@slot`, "layouts/l.tw": `<@reserve("r")>`},
+	{"page.tw": `@each(k in [1, 2])@component("~x", {a: k})@end`, "components/x.tw": `@if(a == 2)@use("~l")@end X{{ a }}`, "layouts/l.tw": `<@reserve("r")>`},
+	{"page.tw": `a@component("~x")b`, "components/x.tw": `X@reserve("r")Y`},
+	{"page.tw": `a@component("~x")b`, "components/x.tw": `X@insert("r", 1)@insert("q")block@end Y`},
+	{"page.tw": `a@component("layouts/l")b`, "layouts/l.tw": `<@reserve("r")>`},
+	{"page.tw": `@use("components/x")@insert("r", 1)`, "components/x.tw": `X@slot Y@slot("n")`},
+	{"page.tw": `@use("other")@insert("r", 1)`, "other.tw": `plain page {{ a }}`},
+	{"page.tw": `a@component("other", {a: 2})b`, "other.tw": `@use("~l")@insert("r", a)`, "layouts/l.tw": `<@reserve("r")>`},
+	{"page.tw": `@insert("r", 1)@insert("q")block {{ a }}@end text`},
+	{"page.tw": `@slot top @slot("named") text`},
+	{"page.tw": `@reserve("r") is a layout by itself`, "user.tw": `@use("page")@insert("r", "x")`},
+	{"page.tw": `@if(false)@use("~l")@end@insert("r", 1)after`, "layouts/l.tw": `<@reserve("r")>`},
+	{"page.tw": `@use("~l")@use("~m")@insert("r", 1)`, "layouts/l.tw": `L<@reserve("r")>`, "layouts/m.tw": `M<@reserve("r")>`},
+	{"page.tw": `@use("~l")@insert("r")@use("~m")x@end`, "layouts/l.tw": `L<@reserve("r")>`, "layouts/m.tw": `M<@reserve("q")>`},
+	{"page.tw": `@use("~l")@insert("r")@reserve("inner")@end`, "layouts/l.tw": `L<@reserve("r")>`},
+	{"page.tw": `@use("~l")@insert("r")@component("~x")@slot@insert("r", 2)@end@end@end`, "layouts/l.tw": `L<@reserve("r")>`, "components/x.tw": `X@slot`},
+	{"page.tw": `@use("~l")@insert("r", 1)`, "layouts/l.tw": `L<@reserve("r")>@component("~x")@slot@reserve("deep")@end@end`, "components/x.tw": `X@slot`},
+	{"page.tw": `@component("~x")@slot@component("~y")@slot@component("~x")@end@end@end@end`, "components/x.tw": `X[@slot]`, "components/y.tw": `Y[@slot]`},
+	{"page.tw": `@break@continue@breakIf(a)@continueIf(a)text`, "loop.tw": `@each(v in items)@component("~x")@slot@break@end@end@end`, "components/x.tw": `X@slot@continue`},
+	{"page.tw": `@dump(a)@dump()@dump(a, items, nope)`},
+	{"page.tw": `@component("~x", {loop: 1})`, "components/x.tw": `{{ loop }}`},
+	{"page.tw": `@component("~x", {a: b})`, "components/x.tw": `{{ a }}`},
 }
 
 func manyInts(n int) []int {
@@ -502,6 +532,41 @@ func init() {
 							c.Nontrivial(fmt.Sprint(src, recv, n))
 							checkOutcome(c, got, src, true)
 						}
+					}
+				}})
+			// trees whose files play unusual parts (a component that names a layout, a layout used as a component, inserts without
+			// a layout, placeholders in pages …): loading returns, and every name renders or fails - through String, Response
+			// and the file API - without a panic
+			secs = append(secs, core.Section{Name: "files-in-unusual-parts", Exhaustive: true, N: len(oddTrees),
+				Run: func(c *core.Ctx, i int) {
+					files := oddTrees[i]
+					c.Input(map[string]any{"files": describeFiles(files)})
+					c.Nontrivial(fmt.Sprint("odd-tree", i, files))
+					tpl, err := loadTree(c, "c09odd", files, ".tw")
+					defer os.RemoveAll("c09odd")
+					if err != nil || tpl == nil {
+						if err != nil {
+							c.Count("odd_trees_rejected_at_load", 1)
+							if !strings.Contains(err.Error(), "Textwire ERROR") {
+								c.Violation("load-error-shape", "load error is not a Textwire error: "+err.Error(), map[string]any{"files": describeFiles(files)})
+							}
+						}
+					} else {
+						for _, name := range tpl.VerifNames() {
+							for _, d := range []map[string]any{nil, {"a": 1, "items": []int{1, 2}}} {
+								got, _ := renderPage(c, tpl, name, d)
+								if !got.Panicked {
+									c.Count("odd_tree_renders", 1)
+								}
+								rec := newRecorder()
+								c.Eval(1)
+								c.Guard(func() { tpl.Response(rec, name, d) })
+							}
+						}
+					}
+					for f := range files {
+						c.Eval(1)
+						c.Guard(func() { textwire.EvaluateFile("c09odd/"+f, map[string]any{"a": 1}) })
 					}
 				}})
 			// several goroutines evaluate at once, with property names, struct types and function names never seen before
